@@ -46,6 +46,8 @@ pub struct PolicyState<B, C> {
     channel_senders: Vec<mpsc::Sender<Vec<u8>>>,
     channel_receivers: Option<Vec<tokio::sync::Mutex<mpsc::Receiver<Vec<u8>>>>>,
     start_span: Option<Span>,
+    #[cfg(polytune_verif)]
+    verif_tag: u64,
 }
 
 impl<B, C> PolicyState<B, C>
@@ -79,6 +81,8 @@ where
                 channel_senders: vec![],
                 channel_receivers: None,
                 start_span: None,
+                #[cfg(polytune_verif)]
+                verif_tag: 0,
             },
             PolicyStateHandle(cmd_tx),
         )
@@ -91,6 +95,13 @@ where
     /// If this method is not called, `None` will be provided to the `mpc` function.
     pub fn with_tmp_dir(mut self, path: &Path) -> Self {
         self.tmp_dir_path = Some(path.to_owned());
+        self
+    }
+
+    /// Verification hook: tag passed to the harness gate (see `verif.rs`).
+    #[cfg(polytune_verif)]
+    pub fn with_verif_tag(mut self, tag: u64) -> Self {
+        self.verif_tag = tag;
         self
     }
 
@@ -107,6 +118,8 @@ where
         self.start_span = Some(start_span.clone());
         async {
             while let Some(cmd) = self.cmd_rx.recv().await {
+                #[cfg(polytune_verif)]
+                crate::verif::gate("cmd", cmd.verif_name(), self.verif_tag).await;
                 self = match self.handle_cmd(cmd).await {
                     ControlFlow::Continue(this) => this,
                     ControlFlow::Break(_) => {
@@ -141,6 +154,22 @@ pub(crate) enum PolicyCmd {
     InternalConstsSent,
     Stop,
     Cancel(Ret<CancelError>),
+}
+
+#[cfg(polytune_verif)]
+impl PolicyCmd {
+    fn verif_name(&self) -> &'static str {
+        match self {
+            Self::Schedule(..) => "Schedule",
+            Self::Validate(..) => "Validate",
+            Self::Run(..) => "Run",
+            Self::Consts(..) => "Consts",
+            Self::MpcMsg(..) => "MpcMsg",
+            Self::InternalConstsSent => "InternalConstsSent",
+            Self::Stop => "Stop",
+            Self::Cancel(_) => "Cancel",
+        }
+    }
 }
 
 impl Debug for PolicyCmd {
@@ -356,6 +385,8 @@ where
             // for these parties
             let _ = ret.send(Ok(()));
 
+            #[cfg(polytune_verif)]
+            crate::verif::gate("acquire", "", self.verif_tag).await;
             // We currently limit the concurrency in terms of computation where a party is the leader
             self.permit = Some(
                 Arc::clone(&self.concurrency)
@@ -667,9 +698,13 @@ where
                 if let Some(ret) = run_ret {
                     let _ = ret.send(Ok(()));
                 }
+                #[cfg(polytune_verif)]
+                let verif_tag = self.verif_tag;
                 if !policy_cl.constants.is_empty() {
                     tokio::spawn(
                         async move {
+                            #[cfg(polytune_verif)]
+                            crate::verif::gate("consts_task", "", verif_tag).await;
                             let const_futs = policy_cl.other_parties().map(async |p| {
                                 let const_req = ConstsRequest {
                                     from: policy_cl.party,
@@ -780,7 +815,11 @@ where
                 self.state_kind = PolicyStateKind::Executing {
                     cancel: Arc::clone(&cancel),
                 };
+                #[cfg(polytune_verif)]
+                let verif_tag = self.verif_tag;
                 let fut = async move {
+                    #[cfg(polytune_verif)]
+                    crate::verif::gate("mpc_task", "", verif_tag).await;
                     let mpc_fut = async {
                         debug!("starting mpc computation");
                         // Move permit into the async task so that its desctructor is run when the task is finished
